@@ -604,7 +604,11 @@ func (h *txH) step(a txAct) (res string) {
 		var once sync.Once
 		verifHook = func(p string) {
 			if p == "delay.loop" {
-				once.Do(func() { h.n.requestStop(ctx) }) // the loop ends after this iteration
+				once.Do(func() { // the loop ends after this iteration
+					h.n.lock.Lock()
+					h.n.stopping = true
+					h.n.lock.Unlock()
+				})
 			}
 		}
 		go func() { h.n.checkTxDelays(ctx); close(fin) }()
